@@ -16,7 +16,7 @@ EXPLANATION = ('(a) discovery: candidate files (coarse-grained and atomistic top
                're-add species given explicitly and must not fail; (b) workflow: the real auto_map runs with the library objects '
                '(Manager, Molecule.from_files, read_topology) replaced by recorders and an opaque symbolic scale; the recorded call '
                'trace must be load -> attach ends -> align -> exchange maps(scale) -> extrapolate(requested path or mapped_<name> beside the input).')
-BOUNDS = {'candidate files': '<= 8 per case (2 species x 3 files + distractor + unrelated), every subset of species given explicitly, candidate lists with a missing atomistic topology / coordinate file',
+BOUNDS = {'candidate files': '<= 8 per case (2 species x 3 files + distractor topology + unrelated file, or + 2 distractor coordinate files with the atom counts of the wanted ones), every subset of species given explicitly, candidate lists with a missing atomistic topology / coordinate file',
           'set orders': 'every permutation of each candidate set (<= 5 elements: 120)', 'scale / paths': 'opaque symbolic values'}
 OUTSIDE = ['byte equality of the file written by the command-line tool and by the library for the same seed: a whole-program run through argparse, file I/O, '
            'the concrete Mersenne-Twister stream and 5000*n binary64 Monte-Carlo steps - not encodable; the call-trace equality (b) plus C05/C06/C09 is what is decided',
@@ -45,6 +45,9 @@ def _write_files(d):
     f['Y_AA.itp'] = os.path.join(d, 'Y_AA.itp'); itp(f['Y_AA.itp'], 'YMOL', [('N1', 'YAA'), ('N2', 'YAA')], [(0, 1)])
     f['Y_AA.gro'] = os.path.join(d, 'Y_AA.gro'); gro(f['Y_AA.gro'], [[1, 'YAA', 'N%d' % (i + 1), i + 1, 0.1 * i, 0.2, 0.0] for i in range(2)])
     f['Z_CG.itp'] = os.path.join(d, 'Z_CG.itp'); itp(f['Z_CG.itp'], 'ZMOL', [('W1', 'ZCG'), ('W2', 'ZCG'), ('W3', 'ZCG')], [(0, 1), (1, 2)])
+    # coordinate files of species that are not in the system, with the same atom counts as the wanted ones
+    f['W_AA.gro'] = os.path.join(d, 'W_AA.gro'); gro(f['W_AA.gro'], [[1, 'WAA', 'D%d' % (i + 1), i + 1, 0.1 * i, 0.4, 0.0] for i in range(3)])
+    f['V_AA.gro'] = os.path.join(d, 'V_AA.gro'); gro(f['V_AA.gro'], [[1, 'VAA', 'E%d' % (i + 1), i + 1, 0.1 * i, 0.6, 0.0] for i in range(2)])
     f['notes.txt'] = os.path.join(d, 'notes.txt'); open(f['notes.txt'], 'w').write('unrelated\n')
     recs, aid = [], 1
     for ri, sp in enumerate('XYX'):
@@ -61,6 +64,7 @@ SCENARIOS = {
     'both-explicit': (['X_CG.itp', 'X_AA.itp', 'X_AA.gro', 'Y_CG.itp', 'Y_AA.itp', 'Y_AA.gro'], ['X', 'Y'], {}),
     'Y-without-AA-topology': (['X_CG.itp', 'X_AA.itp', 'X_AA.gro', 'Y_CG.itp', 'Y_AA.gro', 'notes.txt'], [], {'XMOL': 'X', 'YMOL': None}),
     'Y-without-AA-coordinates': (['X_CG.itp', 'X_AA.itp', 'X_AA.gro', 'Y_CG.itp', 'Y_AA.itp'], [], {'XMOL': 'X', 'YMOL': 'no-coor'}),
+    'same-size-coordinate-distractors': (['X_CG.itp', 'X_AA.itp', 'X_AA.gro', 'Y_CG.itp', 'Y_AA.itp', 'Y_AA.gro', 'W_AA.gro', 'V_AA.gro'], [], {'XMOL': 'X', 'YMOL': 'Y'}),
     'only-distractors': (['Z_CG.itp', 'notes.txt', 'X_AA.gro'], [], {}),
 }
 
